@@ -696,11 +696,15 @@ def _direct_env():
     global _direct_ready
     from custom_components.pyscript import trigger
     from custom_components.pyscript.trigger import TrigTime
+    async def _job(f, *a):
+        return f(*a)
+    stub = types.SimpleNamespace(async_add_executor_job=_job)
     if not _direct_ready:
-        async def _job(f, *a):
-            return f(*a)
-        TrigTime.init(types.SimpleNamespace(async_add_executor_job=_job))
+        TrigTime.init(stub)
         _direct_ready = True
+    # a Home Assistant instance run in this process in between (failing-input search: second pass) leaves its own, by now
+    # stopped, hass in TrigTime.hass - sunrise/sunset would then take the "not defined at this latitude" fall-back
+    TrigTime.hass = stub
     return trigger, TrigTime
 
 
